@@ -308,6 +308,11 @@ def build(S):
         for topo in ("lsn", "usn", "cdn", "cdn_unbalanced", "cdn_upper_primary", "ldn", "udn"):
             S.contract("separatrix-gradient-wiring[%s]" % topo, FN_SEG, run_wiring(topo), expected_exceptions=(ValueError,), raises_ok=lambda p: True, shape="sizes symbolic")
         S.contract("segmentsWithPsivals", FN_SEG, run_segments, shape="2 segments")
+        from . import C19
+
+        # requested radial limits: psinorm_* / psi_* -> psi_core, psi_sol, psi_sol_inner, psi_pf_lower/upper
+        S.under_contract(C19.FN_MR)
+        S.contract("makeRegions[radial limits]", C19.FN_MR, C19.make_regions_run(1), expected_exceptions=(), shape="one X-point, symbolic psinorm options")
 
 
 def post(S):
